@@ -275,7 +275,8 @@ class Graph:
                         src.discharged = lock_poison(t) or (consumed_prefix(self.facts, p, t.get('fn_sp') or sp, 'advance') if (c or '').endswith('>::advance') else None) \
                             or (bounded_amount(self.facts, p, t.get('fn_sp') or sp) if (c or '').rsplit('::', 1)[-1] in ('reserve', 'with_capacity', 'resize', 'reserve_exact') else None) \
                             or (guarded_split(self.facts, p, t.get('fn_sp') or sp) if (c or '').rsplit('::', 1)[-1] in ('split_at', 'split_at_mut') else None) \
-                            or (guarded_index(self.facts, p, t.get('fn_sp') or sp) if (c or '').endswith('core::ops::index::Index<I>>::index') else None)
+                            or (guarded_index(self.facts, p, t.get('fn_sp') or sp) if (c or '').endswith('core::ops::index::Index<I>>::index') else None) \
+                            or (guarded_range_index(self.facts, p, t.get('fn_sp') or sp) if t.get('callee') == 'core::ops::index::Index::index' and 'Range' in str(t.get('targs') or '') else None)
                         out.append(src)
         res = []
         for src in out:
@@ -1019,3 +1020,79 @@ def guarded_split(facts, body_path, sp):
         if e['k'] == 'MethodCall' and e['name'] in ('iter', 'into_iter') and not e['args'] and expr_eq(facts, e['recv'], x):
             return 'the split position counts elements of the split slice itself (iter() through adaptors that never lengthen the sequence): it is <= len'
     return None
+
+
+def guarded_range_index(facts, body_path, sp):
+    """D9: `x[a..]`, `x[..b]`, `x[a..b]` with literal bounds on a slice panics exactly when a bound exceeds x.len() (or a > b).
+    Discharged when, on every path of the enclosing closure / function body that the abstract interpreter enumerates up to the
+    indexing, the path condition at that point gives len(x) >= the largest bound - for the very slice value x that is indexed
+    (same term; a slice behind a shared reference does not change):
+      * `x.get(r)` was found to be Some for a range r with a literal bound >= it (std: get(range) answers Some exactly when the
+        range lies within the slice, so `a <= b <= len`), or `x.get(k)` Some for an index k >= bound - 1 (Some exactly when k < len);
+      * comparisons of x.len() with literals (absx.length_facts).
+    However the guard is spelled (`get(..2).ok_or(e)?`, `let Some(h) = x.get(..2) else { return }`, a `match`, `if x.len() < 2 {
+    return }`), it ends up as one of these facts on the paths that go on.  A path the interpreter cannot enumerate, an index
+    that is never reached, a bound that is not a literal: not discharged."""
+    import absx
+    rec = hir_owner(facts, body_path)
+    if rec is None:
+        return None
+    B = _hirq.Body(facts, rec)
+    cands = [n for n in B.nodes if n['k'] == 'Index' and n.get('sp') and
+             (list(n['sp'][:5]) == list(sp[:5]) or (n['sp'][0] == sp[0] and n['sp'][3:5] == sp[3:5]))]
+    if len(cands) != 1:
+        return None
+    ix = cands[0]
+    idx = _hirq.peel_refs(ix['idx'])
+    if idx['k'] != 'Struct' or (idx.get('def') or '').rsplit('::', 1)[-1] not in ('Range', 'RangeFrom', 'RangeTo', 'RangeFull'):
+        return None
+    bounds = {}
+    for fl in idx['fields']:
+        v = _hirq.const_eval(facts, fl['e'])
+        if not isinstance(v, int) or isinstance(v, bool) or v < 0:
+            return None
+        bounds[fl['name']] = v
+    if 'start' in bounds and 'end' in bounds and bounds['start'] > bounds['end']:
+        return None
+    need = max(list(bounds.values()) + [0])
+    if need == 0:
+        return '`x[..]` / `x[0..]` / `x[..0]`: within every slice'
+    seen = []
+    class Probe(absx.Interp):
+        def ev_Index(self, e, st):
+            if e is ix:
+                res, _abn = self.seq([e['e']], st)
+                for (a,), s_ in res:
+                    seen.append((a, s_.pc))
+            return absx.Interp.ev_Index(self, e, st)
+    encl = [a for a, _r in B.context(ix) if a['k'] == 'Closure']
+    I = Probe(facts, B, combinators=True)
+    try:
+        if encl:
+            cl = encl[-1]
+            I.apply_closure(('closure', cl['def']), [('param', 'arg#%d' % i) for i in range(len(cl['params']))], absx.St({}), cl)
+        else:
+            I.run()
+    except absx.TooManyPaths:
+        return None
+    if not seen:
+        return None
+    def have(x, pc):
+        fl = absx.length_facts(pc, x)
+        h = fl[0] if fl is not None else 0
+        for a, t in pc:
+            if not (t and a[0] == 'is' and a[2] == 'Some' and a[1][0] == 'call' and a[1][1] == 'core::slice::<impl [T]>::get' and len(a[1][2]) == 2 and a[1][2][0] == x):
+                continue
+            k = a[1][2][1]
+            rv = absx.range_value(k)
+            if rv is not None and rv[0] in ('Range', 'RangeFrom', 'RangeTo'):
+                for bnd in rv[1:]:
+                    if bnd is not None and bnd[0] == 'lit' and isinstance(bnd[1], int) and not isinstance(bnd[1], bool):
+                        h = max(h, bnd[1])
+            elif k[0] == 'lit' and isinstance(k[1], int) and not isinstance(k[1], bool):
+                h = max(h, k[1] + 1)
+        return h
+    for x, pc in seen:
+        if absx.leaves(x, lambda z: z[0] in ('unk', 'unbound')) or have(x, pc) < need:
+            return None
+    return 'guarded: on each of the %d enumerated paths to the indexing the path condition gives len >= %d (a `get` of the same slice that was Some / a length comparison)' % (len(seen), need)
